@@ -256,7 +256,9 @@ recurseTail:
 
 	case builtin:
 		err := o(intp)
-		if e2, ok := err.(*postScriptError); ok {
+		if e2, ok := err.(*postScriptError); ok && err != ErrExecutionLimitExceeded {
+			// (The budget error is not a PostScript-level error: running a
+			// handler for it would execute further operations.)
 			level := len(intp.errors)
 			if level < 5 {
 				intp.errors = append(intp.errors, e2)
